@@ -96,7 +96,8 @@ def pred (cs os : Sx) : Cli.Verdict :=
       match c.args with
       | some none => if docs.isEmpty && asNat exit != some 0 then none else some "output-or-exit-0-with-unparsable-arguments"
       | args =>
-        Cli.P_C20 { url := c.url, args := (match args with | some (some j) => some j | _ => none), more := c.more, frames := c.frames }
+        Cli.P_C20 { url := c.url, args := (match args with | some (some j) => some j | _ => none), more := c.more, frames := c.frames,
+                    listening := c.form == "path" || c.form == "abstract" || c.form == "tcp", listen := c.listen }
           { conns := n, log := lg, rawLog := raw, stdout := docs,
             clean := (match clean with | .atom "t" => true | _ => false),
             exit := asNat exit, report := rep, otherMsg := other }
